@@ -195,3 +195,44 @@ Theorem c08_k3_refuted : forall (Fm : Fmt NF) (s : source Fm) (i : interp Fm),
       exists out c1, next fuel c0 = Done (out, c1) /\ forall fuel', next fuel' c1 = Diverges.
 Proof. exact @k3_second_output_never_arrives. Qed.
 Print Assumptions c08_k3_refuted.
+
+(* ---- setters and accessors between outputs (Signal/ConverterOps.v, Signal/ConverterOpsProofs.v);
+   every arithmetic (reals and binary64), every state, every value of the accumulator ---- *)
+From Dasp Require Import Signal.ConverterOps Signal.ConverterOpsProofs.
+
+(* set_playback_hz_scale / set_hz_to_hz / set_sample_hz_scale change the ratio and nothing else *)
+Theorem c08_setters_only_ratio : forall (N : Num) (Fm : Fmt N) (c : conv Fm) (x a b : T N),
+  let c1 := set_playback_hz_scale c x in
+  let c2 := set_hz_to_hz c a b in
+  let c3 := set_sample_hz_scale c x in
+  (src c1 = src c /\ itp c1 = itp c /\ value c1 = value c /\ ratio c1 = x) /\
+  (src c2 = src c /\ itp c2 = itp c /\ value c2 = value c /\ ratio c2 = div N a b) /\
+  (src c3 = src c /\ itp c3 = itp c /\ value c3 = value c /\ ratio c3 = div N (one N) x).
+Proof. exact @setters_only_ratio. Qed.
+Print Assumptions c08_setters_only_ratio.
+
+(* announcing the ratio in force again is the identity on the converter (so nothing that follows can differ) *)
+Theorem c08_set_same_ratio : forall (N : Num) (Fm : Fmt N) (c : conv Fm) (x a b : T N),
+  (x = ratio c -> set_playback_hz_scale c x = c) /\
+  (div N a b = ratio c -> set_hz_to_hz c a b = c) /\
+  (div N (one N) x = ratio c -> set_sample_hz_scale c x = c).
+Proof. exact @set_same_ratio. Qed.
+Print Assumptions c08_set_same_ratio.
+
+(* a frame taken through source_mut() moves the source by one frame and touches nothing else *)
+Theorem c08_source_pull : forall (N : Num) (Fm : Fmt N) (c : conv Fm),
+  let r := source_pull c in
+  fst r = fst (src_next (src c)) /\ src (snd r) = snd (src_next (src c)) /\
+  itp (snd r) = itp c /\ value (snd r) = value c /\ ratio (snd r) = ratio c.
+Proof. exact @source_pull_only_source. Qed.
+Print Assumptions c08_source_pull.
+
+(* into_source() + a constructor again: the source continues where it was left (after the priming pulls),
+   the position starts at zero with the new ratio *)
+Theorem c08_rebuild : forall (N : Num) (Fm : Fmt N) (linear : bool) (c c' : conv Fm) (scale : T N),
+  rebuild linear c scale = Ok c' ->
+  value c' = zero N /\ ratio c' = scale /\
+  src c' = snd (if linear then prime_linear (src c) else prime_floor (src c)) /\
+  itp c' = fst (if linear then prime_linear (src c) else prime_floor (src c)).
+Proof. exact @rebuild_state. Qed.
+Print Assumptions c08_rebuild.
